@@ -276,15 +276,15 @@ type Kind uint8
 const (
 	Push Kind = iota
 	Pop
-	Require     // Res, Amt
-	Release     // memory, Amt
-	Linear      // Factor, Amt
-	StopSoft    // on the running context
-	StopHard    // on the running context
-	Kill        // on the running context
-	ParentSoft  // stop requested on the parent of the running context
-	ParentHard  // hard stop requested on the parent of the running context
-	MarkError   // the running context's call ended with an ordinary error (status error at pop)
+	Require    // Res, Amt
+	Release    // memory, Amt
+	Linear     // Factor, Amt
+	StopSoft   // on the running context
+	StopHard   // on the running context
+	Kill       // on the running context
+	ParentSoft // stop requested on the parent of the running context
+	ParentHard // hard stop requested on the parent of the running context
+	MarkError  // the running context's call ended with an ordinary error (status error at pop)
 )
 
 type Op struct {
